@@ -261,8 +261,30 @@ func IsIdent(s string) bool {
 	return true
 }
 
-func spellInt(i int64, asString bool) string {
+func spellInt(i int64, asString bool) string { return spellIntForm(i, NumPlain, asString) }
+
+func spellIntForm(i int64, f NumForm, asString bool) string {
 	d := strconv.FormatInt(i, 10)
+	sign := ""
+	if d[0] == '-' {
+		sign, d = "-", d[1:]
+	}
+	switch f {
+	case NumZeros:
+		d = "00" + d
+	case NumPoint:
+		d += ".0"
+	case NumExp:
+		d += "e0"
+	case NumExpUp:
+		// the last digit behind the point, exponent 1: 40056 = 4005.6E1
+		if len(d) > 1 {
+			d = d[:len(d)-1] + "." + d[len(d)-1:] + "E1"
+		} else {
+			d = "0." + d + "E1"
+		}
+	}
+	d = sign + d
 	if asString {
 		return `"` + d + `"`
 	}
